@@ -4,7 +4,7 @@ import random, json, os, hashlib
 from . import common, storep, storeb
 
 CLASSES = [("storep", "req"), ("storep", "prio"), ("storep", "filter"), ("storeb", "buffer"), ("storeb", "fleet")]
-P_FIELDS = ("items", "putq", "putres", "getq", "getres", "ptimes")
+P_FIELDS = ("items", "putq", "putres", "getq", "getres", "ptimes", "now")
 B_FIELDS = ("items", "ready", "putq", "putres", "getq", "getres")
 
 
@@ -20,12 +20,12 @@ def gen(rng, model, kind, n_ops, malformed):
 
 def impl_run(case):
     if case["model"] == "storep":
-        rows, mops, im = storep.run_impl(case["kind"], case["cap"], case["tdelay"], [tuple(o) for o in case["ops"]])
+        micro, rows, mops, im = storep.run_impl(case["kind"], case["cap"], case["tdelay"], [tuple(o) for o in case["ops"]])
         text = storep.model_text(case["kind"], case["cap"], case["tdelay"], mops)
     else:
-        rows, mops, im = storeb.run_impl(case)
+        micro, rows, mops, im = storeb.run_impl(case)
         text = storeb.model_text(case, mops)
-    return rows, mops, text
+    return micro, rows, mops, text
 
 
 def model_rows(case, lines, mops):
@@ -60,18 +60,19 @@ def compare(case, irows, mrows):
 
 
 def run_batch(cases):
-    """returns list of (case, impl rows (dicts), model rows (dicts), disagreement|None)"""
+    """returns list of dict(case, micro, impl (row dicts), model (row dicts), dis (first disagreement|None))"""
     prepared, text = [], []
     for c in cases:
-        rows, mops, t = impl_run(c)
-        prepared.append((c, rows, mops))
+        micro, rows, mops, t = impl_run(c)
+        prepared.append((c, micro, rows, mops))
         text.append(t)
     outs = common.run_driver("".join(text))
     res = []
-    for (c, rows, mops), lines in zip(prepared, outs):
+    for (c, micro, rows, mops), lines in zip(prepared, outs):
         mrows = model_rows(c, lines, mops)
         dis = compare(c, rows, mrows)
-        res.append((c, [split_row(c, r) for r in rows], [split_row(c, r) for r in mrows], dis[0] if dis else None))
+        res.append(dict(case=c, micro=micro, impl=[split_row(c, r) for r in rows],
+                        model=[split_row(c, r) for r in mrows], dis=dis[0] if dis else None))
     return res
 
 
